@@ -531,12 +531,10 @@ example : AllGood h0 [s0] ∧ ∃ h' ds' ω', ReachI Cfg.fixed 6 [s0] (fun k => 
     (ReachI.inplace 0 (.vis hideDog) s1 (h3, s3) rfl rfl e3 (ReachI.done _ _ _))), rfl⟩
 
 /-- the variant in the working tree -/
-theorem current_history_inplace_closed_framed (hd : PyGql.Generated.HeapCfg.currentCfg.deepClone = true)
-    (hk : PyGql.Generated.HeapCfg.currentCfg.keepAllTypes = true) (hacc : PyGql.Generated.HeapCfg.currentCfg.accumulateBusted = true)
-    (hx : PyGql.Generated.HeapCfg.currentCfg.extKeepAll = true) (hin : PyGql.Generated.HeapCfg.currentCfg.extInputFieldExtended = true)
+theorem current_history_inplace_closed_framed
     (fuel : Nat) (srcs : List Schema) (allowed : Nat → Prop) (h : Heap) (h' : Heap) (ds' : List Schema) (ω' : Addr → Option Nat)
     (r : ReachI PyGql.Generated.HeapCfg.currentCfg fuel srcs allowed h [] (fun _ => none) h' ds' ω') (g : AllGood h srcs) :
     Frame h h' ∧ AllGood h' (srcs ++ ds') :=
-  history_inplace_from_sources _ hd hk hacc hx hin fuel srcs allowed h h' ds' ω' r g
+  history_inplace_from_sources _ cur_deepClone cur_keepAllTypes cur_accumulateBusted cur_extKeepAll cur_extInputFieldExtended fuel srcs allowed h h' ds' ω' r g
 
 end PyGql.Props.C14
